@@ -9,6 +9,7 @@ import (
 	"fmt"
 	"math"
 	"math/big"
+	"regexp"
 	"strconv"
 	"strings"
 	"unicode/utf8"
@@ -31,6 +32,9 @@ type Error struct {
 	Kind ErrKind
 	Pos  int
 	Msg  string
+	// InLST: the error was found inside a top-level value annotated
+	// $ion_symbol_table (content a reader consumes itself).
+	InLST bool
 }
 
 func (e *Error) Error() string {
@@ -52,8 +56,9 @@ type Options struct {
 }
 
 type parser struct {
-	b   []byte
-	pos int
+	b        []byte
+	topStart int
+	pos      int
 	opt Options
 	tab *refbin.SymTab
 	res *Result
@@ -62,7 +67,7 @@ type parser struct {
 type perr struct{ e *Error }
 
 func (p *parser) fail(k ErrKind, pos int, f string, a ...interface{}) {
-	panic(perr{&Error{k, pos, fmt.Sprintf(f, a...)}})
+	panic(perr{&Error{Kind: k, Pos: pos, Msg: fmt.Sprintf(f, a...), InLST: lstPrefix.Match(p.b[p.topStart:])}})
 }
 
 // Parse strictly parses an Ion 1.0 text stream.
@@ -96,6 +101,7 @@ func Parse(data []byte, opt Options) (res *Result, err error) {
 			return p.res, nil
 		}
 		start := p.pos
+		p.topStart = start
 		v, bareIdent := p.value(ctxTop, 0)
 		if v.Kind == model.Symbol && !v.IsNull && len(v.Ann) == 0 && bareIdent && v.Sym.Known && isIVMShaped(v.Sym.Text) {
 			if v.Sym.Text != "$ion_1_0" {
@@ -120,6 +126,9 @@ func Parse(data []byte, opt Options) (res *Result, err error) {
 		p.res.Values = append(p.res.Values, v)
 	}
 }
+
+// lstPrefix recognises the start of a top-level symbol-table value.
+var lstPrefix = regexp.MustCompile(`^(\$ion_symbol_table|'\$ion_symbol_table'|\$3)[ \t\r\n]*::`)
 
 func isIVMShaped(s string) bool {
 	if !strings.HasPrefix(s, "$ion_") {
@@ -338,9 +347,13 @@ func (p *parser) symbolOrKeyword(tok symTok, start int, c ctx) model.Value {
 		// followed by a stop character, an operator (in sexp), ':' or a comment.
 		return model.SymV(tok.sym)
 	}
+	if isOperator(p.peek()) && p.peek() != '.' {
+		// true+ / nan+inf / null-1: whether a keyword needs a stop character is undecided
+		p.fail(Unsupported, p.pos, "operator character directly after a keyword")
+	}
 	switch tok.sym.Text {
 	case "true", "false", "nan":
-		p.needStop(start, c)
+		p.needStopKeyword(start, c)
 		if tok.sym.Text == "nan" {
 			return model.FloatV(math.NaN())
 		}
@@ -356,7 +369,7 @@ func (p *parser) symbolOrKeyword(tok symTok, start int, c ctx) model.Value {
 		}
 		name := string(p.b[s:p.pos])
 		if k, ok := typeNames[name]; ok {
-			p.needStop(start, c)
+			p.needStopKeyword(start, c)
 			return model.NullOf(k)
 		}
 		if c == ctxSexp && name == "" {
@@ -365,8 +378,17 @@ func (p *parser) symbolOrKeyword(tok symTok, start int, c ctx) model.Value {
 		}
 		p.fail(Invalid, save, "null.%s is not a type", name)
 	}
-	p.needStop(start, c)
+	p.needStopKeyword(start, c)
 	return model.NullOf(model.Null)
+}
+
+// needStopKeyword is needStop for null / null.type / true / false / nan, where
+// it is undecided whether an operator character may follow directly.
+func (p *parser) needStopKeyword(start int, c ctx) {
+	if ch := p.peek(); isOperator(ch) && !(ch == '/' && (p.peekAt(1) == '/' || p.peekAt(1) == '*')) {
+		p.fail(Unsupported, p.pos, "operator character directly after a keyword")
+	}
+	p.needStop(start, c)
 }
 
 // needStop checks that a number/keyword/timestamp is properly terminated.
@@ -420,6 +442,10 @@ func (p *parser) bareValue(c ctx, depth int) model.Value {
 	case c == ctxSexp && isOperator(ch):
 		for isOperator(p.peek()) {
 			if p.peek() == '/' && (p.peekAt(1) == '/' || p.peekAt(1) == '*') {
+				if p.pos > start {
+					// "+/*": comment opener or part of the operator? undecided
+					p.fail(Unsupported, p.pos, "comment opener directly after operator characters")
+				}
 				break
 			}
 			p.pos++
